@@ -2,6 +2,7 @@ SPECIFICATION Spec
 CONSTANT Letters <- AC
 CONSTANT L = 3
 CONSTANT MaxAlt = 3
+CONSTANT Hints <- FullHint
 CONSTANT Refs <- AllSeqs
 INVARIANT TypeOK
 INVARIANT RoundTrip
